@@ -14,6 +14,7 @@ WSfull == WS(NK, NV)
 WSmid == {<<>>} \cup Singles(NK, NV1) \cup {<<W(k1, TRUE, <<>>), W(k2, FALSE, <<1>>)>> : k1 \in NK, k2 \in NK}
 \* single writes over three keys (a prefix pair and a key on the other side of the root): one line of versions
 WSline == {<<>>} \cup Singles(NK, NV1)
+TrueConst == TRUE
 TBoth == {"state", "io"}
 TState == {"state"}
 =============================================================================
